@@ -30,13 +30,16 @@ private:
   T_PointerType get_unused_index(T_PointerType max_ptr_val)
   {
     const auto max_val = (T_PointerTypeUnsigned)max_ptr_val;
-    for (T_PointerTypeUnsigned i = counter; i <= max_val; i++) {
+    // counter is 0 if the last index handed out was the largest value of the
+    // type; i becomes 0 when it is incremented past that value
+    const T_PointerTypeUnsigned start = counter == 0 ? 1 : counter;
+    for (T_PointerTypeUnsigned i = start; i != 0 && i <= max_val; i++) {
       if (pointer_map.find(i) == pointer_map.end()) {
         counter = i + 1;
         return (T_PointerType)i;
       }
     }
-    for (T_PointerTypeUnsigned i = 1; i < counter; i++) {
+    for (T_PointerTypeUnsigned i = 1; i < start; i++) {
       if (pointer_map.find(i) == pointer_map.end()) {
         counter = i + 1;
         return (T_PointerType)i;
